@@ -1184,7 +1184,11 @@ pub fn check_fsm(c: &FsmCase, big: bool, model: &mut Model, rep: &mut Report, or
                 let mut j = case_json(c, origin);
                 j["what"] = json!("trace of the reloaded machine differs");
                 j["detail"] = json!({"at": k, "original": ta.get(k), "reloaded": tb.get(k), "panicked": [a.panicked, b.panicked]});
-                ofail(rep, "C05:behaviour:trace-differs", j);
+                // the one run-time relevant field the format does not carry: SendParameters.parent_state_name,
+                // used for the generated id of <send idlocation=..>
+                let has_idlocation = orig.content.iter().any(|(_, l)| l.iter().any(|e| matches!(e, dump::MExec::Send(s) if !s.name_location.is_empty())));
+                let sig = if has_idlocation { "C05:behaviour:send-idlocation:parent-state-name-not-persisted" } else { "C05:behaviour:trace-differs" };
+                ofail(rep, sig, j);
             } else {
                 rep.count("behaviour_traces_equal");
             }
@@ -1229,7 +1233,7 @@ pub fn fsm_corpus() -> Vec<FsmCase> {
     // conditionally stored fields: empty cond, invoke with and without id
     c.push(mk(format!("{} datamodel=\"null\"><state id=\"s\"><transition event=\"e\" cond=\"\" target=\"s\"/><invoke id=\"i1\" type=\"scxml\"><param name=\"a\" expr=\"1\"/><finalize><log expr=\"x\"/></finalize></invoke><invoke idlocation=\"loc\" autoforward=\"true\"><content>text</content></invoke></state></scxml>", SX), false, &[]));
     // send with idlocation: the generated id uses the (unpersisted) parent state name
-    c.push(mk(format!("{} datamodel=\"rfsm-expression\"><datamodel><data id=\"v0\" expr=\"''\"/></datamodel><state id=\"s\"><onentry><send event=\"e1\" idlocation=\"v0\"/></onentry><transition event=\"e1\" cond=\"v0 == ''\" target=\"t\"/></state><state id=\"t\"/></scxml>", SX), true, &["e1"]));
+    c.push(mk(format!("{} datamodel=\"rfsm-expression\"><datamodel><data id=\"v0\" expr=\"''\"/></datamodel><state id=\"s\"><onentry><send event=\"e1\" idlocation=\"v0\"/></onentry><transition event=\"e1\" cond=\"indexOf(v0, 'st.') == 0\" target=\"t\"/></state><state id=\"t\"/></scxml>", SX).replace("<state id=\"s\">", "<state id=\"st\">"), true, &["e1"]));
     c
 }
 
